@@ -186,7 +186,8 @@ def explore(run, driver, budget):
 def fault_case(run, driver, cfg, out, case, default):
     """one put of the call was not acknowledged by the storage service"""
     puts = [p for p in out["puts"] if "marker" not in p]
-    nacked = [p["key"] for p in puts if not p.get("ack", True)]
+    acked = {p["key"] for p in puts if p.get("ack", True)}
+    nacked = [p["key"] for p in puts if not p.get("ack", True) and p["key"] not in acked]     # never stored, not even by a second attempt
     call = cfg["calls"][0]
     # the property: a run that returns its tables, or ends in the too-few-units error, has saved what it owes
     if nacked and out["outcome"] in ("completed", "ModelNotEnoughSubunitsException"):
